@@ -383,6 +383,25 @@ theorem one_proof_one_range (hash : A → A → Int) (g h : A) (pd : RangePublic
     (a - a') • g = 0 ∧ (b - b') • g = 0 :=
   accept_two_ranges hash g h pd a b s t x y u v a' b' s' t' x' y' u' v' h1 h2
 
+/-- histories of checks on one attestation object: the verdict on the last query does not depend on the queries
+    that were checked before it … -/
+theorem verdict_history_independent (hash : A → A → Int) (g h : A) (pd : RangePublic A)
+    (before : List RangeQuery) (q : RangeQuery) :
+    (rangeCheckSeq (𝔾) hash g h pd (before ++ [q])).getLast? =
+      some (rangeCheck (𝔾) hash g h pd q.a q.b q.s q.t q.x q.y q.u q.v) := by
+  simp [rangeCheckSeq]
+
+/-- … so in ANY history of queries on an honestly built proof for [a, b], every accepted query has the prover's
+    bounds (modulo the order of g), whatever was accepted or rejected earlier -/
+theorem every_accepted_query_has_own_range (hash : A → A → Int) (g h : A) (value a b : Int) (rnd : RangeRand)
+    (pd : RangePublic A) (pv : RangePriv)
+    (hc : createAttestPair (𝔾) hash g h value a b rnd = some (pd, pv)) (qs : List RangeQuery) (i : Nat)
+    (hi : i < qs.length) (hacc : (rangeCheckSeq (𝔾) hash g h pd qs)[i]? = some true) :
+    (a - qs[i].a) • g = 0 ∧ (b - qs[i].b) • g = 0 := by
+  simp only [rangeCheckSeq, List.getElem?_map, List.getElem?_eq_getElem hi, Option.map_some,
+    Option.some.injEq] at hacc
+  exact honest_accept_binds hash g h value a b rnd pd pv hc _ _ _ _ _ _ _ _ hacc
+
 end bounds
 
 /-! ### the verifier's bookkeeping (wallet/community.py): every answer is counted at most once, whatever the network does
